@@ -104,10 +104,34 @@ def register(R):
         return {'probing_leaves_the_stream_position_where_it_was': (
             z3.And(B(not moved), g['pos'] == g0['pos']) if g is not None and g0 is not None else B(not moved), ['C01', 'C02'])}
 
+    def probe_answer(fn):
+        """what the probe answers (C01 / C02 / C11 / C16: it selects the input / output manager): the object's own
+        seekable() / readable() verdict when it has one, else -- seekable: whether a seek to the current position works on an
+        object that has seek and tell; readable: whether it has read."""
+        def chk(c):
+            out = dict(probe_post(c))
+            eng, fo, tr = c.engine, c.a_fileobj, c.trace
+            own = [e for e in tr if e.kind == 'ext' and e.name == f'fileobj_or_name.{fn}']
+            has_own = eng.opaque_pred(fo, 'hasattr_' + fn)
+            from pyvc.values import to_z3_bool
+            res = to_z3_bool(c.result) if c.result is not None else B(False)
+            if fn == 'seekable':
+                sk = [e for e in tr if e.kind == 'ext' and e.name == 'fileobj_or_name.seek']
+                fallback = z3.And(eng.opaque_pred(fo, 'hasattr_seek'), eng.opaque_pred(fo, 'hasattr_tell'))
+                sk_ok = B(len(sk) == 1 and sk[0].extra.get('raised') is None and tuple(sk[0].args) == (0, 1))
+                want = z3.If(has_own, B(len(own) == 1) if not own else z3.And(B(len(own) == 1), res == to_z3_bool(own[0].result)),
+                             z3.If(fallback, z3.And(B(len(own) == 0), res == sk_ok), z3.And(B(len(own) == 0 and len(sk) == 0), z3.Not(res))))
+            else:
+                want = z3.If(has_own, B(len(own) == 1) if not own else z3.And(B(len(own) == 1), res == to_z3_bool(own[0].result)),
+                             z3.And(B(len(own) == 0), res == eng.opaque_pred(fo, 'hasattr_read')))
+            out['answers_with_the_objects_own_verdict_else_by_capability'] = (want, ['C01', 'C02', 'C11', 'C16'])
+            return out
+        return chk
+
     for fn in ('readable', 'seekable'):
-        R.contract(f's3transfer.compat:{fn}', props=['C01', 'C02'], params=dict(fileobj=ExtT('fileobj_or_name')), events=False,
+        R.contract(f's3transfer.compat:{fn}', props=['C01', 'C02', 'C11', 'C16'], params=dict(fileobj=ExtT('fileobj_or_name')), events=False,
                    setup=lambda eng, st, args, self_val: R.stream_state(st, args['fileobj']),
-                   checks=probe_post, raises={'Exception': only_propagates},
+                   checks=probe_answer(fn), raises={'Exception': only_propagates},
                    returns=lambda c, st, fn=fn: c.engine.opaque_pred(c.a_fileobj, 'is_' + fn))
 
     # ------------------------------------------------------------------ user-supplied source stream
@@ -171,7 +195,7 @@ def register(R):
                seek=ExtSpec(raises=('Exception', 'OSError'), effect=src_seek_effect),     # OSError listed: compat.seekable distinguishes it
                close=ExtSpec(raises=('Exception',)),
                write=ExtSpec(raises=('Exception',)),
-               seekable=ExtSpec(returns=Bool, pure=True), readable=ExtSpec(returns=Bool, pure=True),
+               seekable=ExtSpec(returns=Bool, raises=('Exception',)), readable=ExtSpec(returns=Bool, raises=('Exception',)),
                signal_transferring=ExtSpec(raises=()), signal_not_transferring=ExtSpec(raises=()))
     R.stream_state = stream
 
